@@ -259,19 +259,23 @@ def keys_are_canonical(d):
             return "zero coefficient at %r" % (k,)
     return None
 
-def snapshot(o):
-    """deep, order-sensitive, type-sensitive snapshot for unchanged-operand checks"""
+def snapshot(o, ordered=True):
+    """deep, type-sensitive snapshot for unchanged-operand checks.  ordered=True also records the insertion
+    order of dicts; ordered=False compares dicts the way Python's == does (order-insensitive)."""
     if isinstance(o, dict):
         extra = []
         for a in ("_mapping", "_reverse_mapping", "_constraints", "_ancilla", "_degree", "_variables",
                   "_num_binary_variables", "_name"):
             if hasattr(o, a):
-                extra.append((a, snapshot(getattr(o, a))))
-        return (type(o).__name__, tuple((snapshot(k), snapshot(v)) for k, v in o.items()), tuple(extra))
+                extra.append((a, snapshot(getattr(o, a), ordered)))
+        items = tuple((snapshot(k, ordered), snapshot(v, ordered)) for k, v in o.items())
+        if not ordered:
+            items = tuple(sorted(items, key=repr))
+        return (type(o).__name__, items, tuple(extra))
     if isinstance(o, (list, tuple)):
-        return (type(o).__name__, tuple(snapshot(x) for x in o))
+        return (type(o).__name__, tuple(snapshot(x, ordered) for x in o))
     if isinstance(o, (set, frozenset)):
-        return (type(o).__name__, tuple(sorted((snapshot(x) for x in o), key=repr)))
+        return (type(o).__name__, tuple(sorted((snapshot(x, ordered) for x in o), key=repr)))
     return (type(o).__name__, repr(o))
 
 # ----------------------------------------------------------------------------- bookkeeping of a run
